@@ -2,6 +2,12 @@
 
 package loadbalancer
 
+import (
+	"net/http"
+	"reflect"
+	"unsafe"
+)
+
 // Read-only exports for the verification harness (added at build time through -overlay; this
 // file is not part of the repository tree).
 
@@ -14,4 +20,31 @@ func (lb *LoadBalancer) VerifBackends() []*Backend {
 	lb.mutex.RLock()
 	defer lb.mutex.RUnlock()
 	return lb.strategy.GetBackends()
+}
+
+// VerifSetRRCounter sets the rotation counter of a round-robin strategy, whatever integer width the field has.
+func VerifSetRRCounter(s Strategy, v uint64) bool {
+	rr, ok := s.(*RoundRobinStrategy)
+	if !ok {
+		return false
+	}
+	f := reflect.ValueOf(rr).Elem().FieldByName("current")
+	if !f.IsValid() || !f.CanAddr() {
+		return false
+	}
+	p := reflect.NewAt(f.Type(), unsafe.Pointer(f.UnsafeAddr())).Elem()
+	switch p.Kind() {
+	case reflect.Uint, reflect.Uint8, reflect.Uint16, reflect.Uint32, reflect.Uint64, reflect.Uintptr:
+		p.SetUint(v)
+		return true
+	case reflect.Int, reflect.Int8, reflect.Int16, reflect.Int32, reflect.Int64:
+		p.SetInt(int64(v))
+		return true
+	}
+	return false
+}
+
+// VerifFindHealthyBackend exposes the backend selection of a request (health refresh, strategy pick, re-check).
+func (lb *LoadBalancer) VerifFindHealthyBackend(r *http.Request) *Backend {
+	return lb.findHealthyBackend(r)
 }
